@@ -1947,7 +1947,12 @@ class t2data(object):
         if 'connection' in self.short_output:
             self.history_connection = self.short_output['connection'][:]
         if 'generator' in self.short_output:
-            self.history_generator = self.short_output['generator'][:]
+            # TOUGH2 generator history (GOFT) is specified by block:
+            blknames = []
+            for gen in self.short_output['generator']:
+                if gen.block not in blknames: blknames.append(gen.block)
+            self.history_generator = [self.grid.block[name] if name in self.grid.block
+                                      else name for name in blknames]
         self.short_output = {}
 
     def convert_history_to_short(self):
@@ -1963,7 +1968,9 @@ class t2data(object):
             cons = [con for con in self.history_connection if isinstance(con, t2connection)]
             if cons: self.short_output['connection'] = cons
         if self.history_generator:
-            gens = [gen for gen in self.history_generator if isinstance(gen, t2generator)]
+            # TOUGH2 generator history (GOFT) is specified by block:
+            blknames = [blk.name for blk in self.history_generator if isinstance(blk, t2block)]
+            gens = [gen for gen in self.generatorlist if gen.block in blknames]
             if gens: self.short_output['generator'] = gens
         self.history_block = []
         self.history_connection = []
